@@ -136,7 +136,26 @@ const (
 )
 
 // genExts draws a legal element list for the profile kind; returns the profile value too.
+//
+// Element COUNTS (generators that ask for at least 5 elements): mostly a handful, but the two-byte
+// form is not bounded by the 14 ids of the one-byte form — one two-byte header in ~12 carries 15 … 40
+// elements and one in ~300 every id 1 … 255 (a quarter of those with values that fill the block to
+// its maximum of 65535 bytes, or a byte or two less); one one-byte header in ~40 carries 15 … 30
+// elements (repeated ids, as a decoded wire image may).  Legacy VALUES: whole words from 0 up to a
+// few thousand bytes (beyond the 255 / 257 bytes an RFC 8285 element can take).
 func genExts(r *Rand, kind int, maxElems int) (uint16, []ExtIn) {
+	return genExtsW(r, kind, maxElems, true)
+}
+
+// genExtsNarrow: without the large classes (many elements, long legacy values, appbits profiles) —
+// for generators whose case COUNT grows with the packet length (c02.parse cuts and flips every byte
+// of its base packets, and prefixes every reuse case with such a packet).
+func genExtsNarrow(r *Rand, kind int, maxElems int) (uint16, []ExtIn) {
+	return genExtsW(r, kind, maxElems, false)
+}
+
+func genExtsW(r *Rand, kind int, maxElems int, wide bool) (uint16, []ExtIn) {
+	wide = wide && maxElems >= 5
 	switch kind {
 	case profOne:
 		n := r.Pick(0, 1, 1, 2, 3, r.Intn(maxElems+1))
@@ -145,8 +164,16 @@ func genExts(r *Rand, kind int, maxElems int) (uint16, []ExtIn) {
 		for i := 0; i < n && i < 14; i++ {
 			es = append(es, ExtIn{uint8(ids[i]), r.Bytes(r.Pick(1, 1, 2, 3, 4, 15, 16, r.Range(1, 16)))})
 		}
+		if wide && r.Chance(1, 40) {
+			for n := r.Pick(15, 16, r.Range(15, 30)); len(es) < n; {
+				es = append(es, ExtIn{uint8(r.Range(1, 14)), r.Bytes(r.Pick(1, 2, 16, r.Range(1, 16)))})
+			}
+		}
 		return 0xBEDE, es
 	case profTwo:
+		if wide && r.Chance(1, 12) {
+			return 0x1000, genExtsTwoMany(r)
+		}
 		n := r.Pick(0, 1, 1, 2, 3, r.Intn(maxElems+1))
 		var es []ExtIn
 		used := map[int]bool{}
@@ -161,24 +188,109 @@ func genExts(r *Rand, kind int, maxElems int) (uint16, []ExtIn) {
 		return 0x1000, es
 	case profLegacy:
 		// 0x1001–0x100F (two-byte profiles with appbits under RFC 8285, legacy to the library) are
-		// outside the quantifier of C01/C04/C05/C20 (wf = false, correspondence only): drawn rarely,
-		// through r.Intn(65536) only
+		// outside the quantifier of C01/C04/C05/C20 (wf = false, correspondence only): a small share
+		// (one legacy header in 16, i.e. 1–2 % of the headers with an extension) keeps them under the
+		// correspondence, so that a change of how they are sized / laid out / parsed is seen
 		prof := uint16(r.Pick(0, 1, 0x1234, 0xBEDF, 0x0FFF, 0x1010, 0xFFFF, r.Intn(65536)))
 		if prof == 0xBEDE || prof == 0x1000 {
 			prof = 0x1234
 		}
-		return prof, []ExtIn{{0, r.Bytes(4 * r.Pick(0, 1, 2, 3, 64, r.Intn(20)))}}
+		if wide && r.Chance(1, 16) {
+			prof = uint16(0x1000 + r.Pick(1, 2, 15, r.Range(1, 15)))
+		}
+		words := r.Pick(0, 1, 2, 3, 64, r.Intn(20))
+		if wide && r.Chance(1, 6) {
+			// longer than any RFC 8285 element (255 bytes, 257 with its header) or one-byte block
+			words = r.Pick(65, 66, 67, 128, 375, r.Range(65, 100), r.Range(65, 400), r.Range(65, 1200))
+		}
+		return prof, []ExtIn{{0, r.Bytes(4 * words)}}
 	}
 	return 0, nil
 }
 
+// genExtsTwoMany draws a two-byte element list with more elements than a one-byte header can hold:
+// 15 … 40 distinct ids, or (one in 25) all 255.
+func genExtsTwoMany(r *Rand) []ExtIn {
+	ids := r.Perm(255)
+	n := r.Pick(15, 16, 17, 40, r.Range(15, 40), r.Range(15, 40))
+	lens := func() int { return r.Pick(0, 1, 2, 16, 17, 254, 255, r.Range(0, 255), r.Range(0, 8), r.Range(0, 8)) }
+	if r.Chance(1, 25) {
+		n = 255
+		if r.Chance(1, 4) {
+			return genExtsTwoFull(r, ids, r.Pick(0, 0, 1, 2, 3, 4))
+		}
+		lens = func() int { return r.Pick(0, 1, 2, 3, 4, 4, r.Range(0, 12)) }
+	}
+	es := make([]ExtIn, n)
+	for i := range es {
+		es[i] = ExtIn{uint8(ids[i]), r.Bytes(lens())}
+	}
+	return es
+}
+
+// genExtsTwoFull: every id in the given order with 255-byte values (the largest two-byte block:
+// 255·257 = 65535 bytes, 16384 words after alignment), `short` bytes less in total.
+func genExtsTwoFull(r *Rand, ids []int, short int) []ExtIn {
+	es := make([]ExtIn, len(ids))
+	for i := range es {
+		es[i] = ExtIn{uint8(ids[i]), r.Bytes(255)}
+	}
+	for ; short > 0; short-- {
+		e := &es[r.Intn(len(es))]
+		if len(e.Payload) > 0 {
+			e.Payload = e.Payload[:len(e.Payload)-1]
+		}
+	}
+	return es
+}
+
+// genExtsBlock builds an extension block of exactly `words` 32-bit words for the profile kind: one
+// legacy value, or as many maximal RFC 8285 elements as fit (ids cycling: beyond 255 / 14 elements
+// they repeat).  65535 words is the largest block the 16-bit length field describes (only the
+// legacy form and repeated ids get there; distinct two-byte ids top out at 16384 words).
+func genExtsBlock(r *Rand, kind int, words int) (uint16, []ExtIn) {
+	var es []ExtIn
+	switch kind {
+	case profLegacy:
+		return uint16(r.Pick(0x0101, 0, 0xFFFF, 0x1234)), []ExtIn{{0, r.Bytes(4 * words)}}
+	case profTwo:
+		for left := 4 * words; left > 0; {
+			l := 255
+			if left < 257 {
+				l = left - 2
+			}
+			if l < 0 {
+				break
+			}
+			es = append(es, ExtIn{uint8(1 + len(es)%255), r.Bytes(l)})
+			left -= l + 2
+		}
+		return 0x1000, es
+	}
+	for left := 4 * words; left > 0; {
+		l := 16
+		if left < 17 {
+			l = left - 1
+		}
+		if l < 1 {
+			break
+		}
+		es = append(es, ExtIn{uint8(1 + len(es)%14), r.Bytes(l)})
+		left -= l + 1
+	}
+	return 0xBEDE, es
+}
+
 // Perm14 returns a random permutation of 1..14.
-func (r *Rand) Perm14() []int {
-	p := make([]int, 14)
+func (r *Rand) Perm14() []int { return r.Perm(14) }
+
+// Perm returns a random permutation of 1..n.
+func (r *Rand) Perm(n int) []int {
+	p := make([]int, n)
 	for i := range p {
 		p[i] = i + 1
 	}
-	for i := 13; i > 0; i-- {
+	for i := n - 1; i > 0; i-- {
 		j := r.Intn(i + 1)
 		p[i], p[j] = p[j], p[i]
 	}
@@ -186,13 +298,18 @@ func (r *Rand) Perm14() []int {
 }
 
 // genPacketWF draws a well-formed packet description (C01's domain).
-func genPacketWF(r *Rand, maxPayload int) *PacketIn {
+func genPacketWF(r *Rand, maxPayload int) *PacketIn { return genPacketWFW(r, maxPayload, true) }
+
+// genPacketWFNarrow: with genExtsNarrow (see there).
+func genPacketWFNarrow(r *Rand, maxPayload int) *PacketIn { return genPacketWFW(r, maxPayload, false) }
+
+func genPacketWFW(r *Rand, maxPayload int, wide bool) *PacketIn {
 	p := &PacketIn{}
 	genFixed(r, &p.H)
 	kind := r.Pick(profNone, profOne, profOne, profTwo, profLegacy)
 	if kind != profNone {
 		p.H.Extension = true
-		p.H.ExtensionProfile, p.Exts = genExts(r, kind, 6)
+		p.H.ExtensionProfile, p.Exts = genExtsW(r, kind, 6, wide)
 	}
 	p.Payload = r.Bytes(r.Size(maxPayload, 1, 2, 255, 256))
 	if r.Chance(1, 3) {
